@@ -1,6 +1,7 @@
 /- helper lemmas for Props/C17.lean -/
 import RbModel.Morx
 import RbModel.Spec.Aat
+import RbModel.Lemmas.BufZipper
 
 namespace RbModel.Morx
 
@@ -1619,3 +1620,308 @@ theorem nc_loop_ranges (lk : Lookup) (rf : Array Range) (sf hi : Nat) (b : Buf) 
 
 end
 end RbModel.Morx
+
+/-! ## the insertion block as a list insertion (on the shared buffer model, from Lemmas/BufZipper.lean) -/
+
+namespace RbModel.Buf
+open RbModel.Mem
+
+theorem inv_unsucc {b : Buf} (h : Inv b) : Inv { b with successful := false } :=
+  ⟨h.idx_le, h.len_le, h.out_len, h.sep_ok, h.nosep_ok, h.have_out⟩
+
+theorem seq_unsucc (b : Buf) (q : Nat) : seq { b with successful := false } q = seq b q := rfl
+
+/-- the record `output_glyph` copies: the current glyph, or at the end of input the last output glyph -/
+def srcOf (b : Buf) : Option Info := if b.idx < b.len then b.info[b.idx]? else b.outArr[b.outLen - 1]?
+
+/-- `output_glyph g` on a non-empty in/out buffer, with the failure case spelled out (the buffer is only marked
+    unsuccessful). -/
+theorem outputGlyph_spec2 (b : Buf) (g : Nat) (hinv : Inv b) (hne : 0 < total b)
+    (hg : Gen.Buf.ensureGrowOnly = true) :
+    ∃ b', b.outputGlyph g = .ok b' ∧ Inv b' ∧ b'.idx = b.idx ∧ b'.len = b.len ∧
+      (b' = { b with successful := false } ∨
+       (b'.outLen = b.outLen + 1 ∧ b'.successful = b.successful ∧
+        ∃ x, srcOf b = some x ∧
+          ∀ q, seq b' q = if q < b.outLen then seq b q else if q = b.outLen then some { x with gid := g }
+                          else seq b (q - 1))) := by
+  have hlen := hinv.len_le
+  have hidx := hinv.idx_le
+  unfold total at hne
+  unfold outputGlyph
+  rcases insert_spec b hinv hg with hfail | ⟨b1, hok, ho, hi, hl, hsu, hsq, hinf, hout, hx⟩
+  · simp only [bind, Except.bind, hfail, Bool.not_false, if_true, pure, Except.pure]
+    exact ⟨_, rfl, inv_unsucc hinv, rfl, rfl, Or.inl rfl⟩
+  · simp only [bind, Except.bind, hok, Bool.not_true, Bool.false_eq_true, if_false, pure, Except.pure]
+    have hempty : (b1.idx == b1.len && b1.outLen == 0) = false := by
+      rw [hi, hl, ho]
+      by_cases h : b.idx = b.len
+      · have : b.outLen ≠ 0 := by omega
+        simp [h, this]
+      · simp [h]
+    simp only [hempty, Bool.false_eq_true, if_false]
+    by_cases hcur : b1.idx < b1.len
+    · have hcur' : b.idx < b.len := by rw [hi, hl] at hcur; exact hcur
+      have hxx : b.info[b.idx]? = some b.info[b.idx] := List.getElem?_eq_getElem (by omega)
+      have hget : get b1.info b1.idx = .ok b.info[b.idx] := by
+        unfold get; rw [hi, hinf b.idx (by omega), hxx]; rfl
+      obtain ⟨I, O, hset, hinv2, hseq2⟩ := hx { b.info[b.idx] with gid := g }
+      simp only [hcur, if_true, hget, hset]
+      rw [ho]
+      refine ⟨_, rfl, hinv2, hi, hl, Or.inr ⟨rfl, hsu, b.info[b.idx], ?_, hseq2⟩⟩
+      simp only [srcOf, hcur', if_true]; exact hxx
+    · have hcur' : ¬ b.idx < b.len := by rw [hi, hl] at hcur; exact hcur
+      have hne0 : b.outLen ≠ 0 := by omega
+      have hne1 : ¬ b1.outLen = 0 := by rw [ho]; exact hne0
+      have hpos : b.outLen - 1 < b.outArr.length := by
+        cases hsb : b.sepOut with
+        | true => have := hinv.sep_ok hsb; simp [outArr, hsb]; omega
+        | false => have := hinv.nosep_ok hsb; simp [outArr, hsb]; omega
+      have hxx : b.outArr[b.outLen - 1]? = some b.outArr[b.outLen - 1] := List.getElem?_eq_getElem hpos
+      have hget : get b1.outArr (b1.outLen - 1) = .ok b.outArr[b.outLen - 1] := by
+        unfold get; rw [ho, hout (b.outLen - 1) (by omega), hxx]; rfl
+      obtain ⟨I, O, hset, hinv2, hseq2⟩ := hx { b.outArr[b.outLen - 1] with gid := g }
+      simp only [hcur, if_false, hne1, hget, hset]
+      rw [ho]
+      refine ⟨_, rfl, hinv2, hi, hl, Or.inr ⟨rfl, hsu, b.outArr[b.outLen - 1], ?_, hseq2⟩⟩
+      simp only [srcOf, hcur', if_false]; exact hxx
+
+open RbModel.Morx in
+/-- the logical sequence after `c` glyphs of the insertion list were put in at the output cursor `o` -/
+def insertedSeq (b : Buf) (glyphs : Nat → Option Nat) (start c : Nat) (x : Info) (q : Nat) : Option Info :=
+  if q < b.outLen then seq b q
+  else if q < b.outLen + c then (glyphs (start + (q - b.outLen))).map (fun g => { x with gid := g })
+  else seq b (q - c)
+
+open RbModel.Morx in
+theorem insertGlyphs_spec (glyphs : Nat → Option Nat) (start : Nat) (hg : Gen.Buf.ensureGrowOnly = true) :
+    ∀ (c : Nat) (b : Buf) (x : Info), Inv b → 0 < total b → srcOf b = some x →
+      (∀ k, k < c → (glyphs (start + k)).isSome = true) →
+      ∃ b', InsS.insertGlyphs glyphs start c b = .ok (b', true) ∧ Inv b' ∧ b'.idx = b.idx ∧ b'.len = b.len ∧
+        b.outLen ≤ b'.outLen ∧
+        (b'.successful = false ∨
+         (b'.outLen = b.outLen + c ∧ b'.successful = b.successful ∧
+          ∀ q, seq b' q = insertedSeq b glyphs start c x q)) := by
+  intro c
+  induction c with
+  | zero =>
+    intro b x hinv _ _ _
+    refine ⟨b, rfl, hinv, rfl, rfl, Nat.le_refl _, Or.inr ⟨rfl, rfl, ?_⟩⟩
+    intro q; unfold insertedSeq
+    by_cases h : q < b.outLen
+    · simp [h]
+    · simp [h]
+  | succ c ih =>
+    intro b x hinv hne hsrc hgl
+    obtain ⟨b1, e1, hinv1, hi1, hl1, hmono1, hres1⟩ := ih b x hinv hne hsrc (fun k hk => hgl k (by omega))
+    obtain ⟨g, hgc⟩ := Option.isSome_iff_exists.mp (hgl c (by omega))
+    have hne1 : 0 < total b1 := by unfold total at *; rw [hi1, hl1]; omega
+    obtain ⟨b2, e2, hinv2, hi2, hl2, hres2⟩ := outputGlyph_spec2 b1 g hinv1 hne1 hg
+    refine ⟨b2, ?_, hinv2, by rw [hi2, hi1], by rw [hl2, hl1], ?_, ?_⟩
+    · simp only [InsS.insertGlyphs, e1, bind, Except.bind, Bool.not_true, Bool.false_eq_true, if_false, hgc, e2,
+        pure, Except.pure]
+    · rcases hres2 with h | ⟨h, _⟩
+      · rw [h]; exact hmono1
+      · omega
+    · rcases hres1 with hf | ⟨ho1, hs1, hq1⟩
+      · left
+        rcases hres2 with h | ⟨_, h, _⟩
+        · rw [h]
+        · rw [h]; exact hf
+      · rcases hres2 with h | ⟨ho2, hs2, x1, hx1, hq2⟩
+        · left; rw [h]
+        · right
+          refine ⟨by omega, by rw [hs2, hs1], ?_⟩
+          -- the copied record has the cluster (mask, payload) of `x`
+          have hx : ({ x1 with gid := g } : Info) = { x with gid := g } := by
+            unfold srcOf at hx1 hsrc
+            by_cases hcur : b.idx < b.len
+            · have hcur1 : b1.idx < b1.len := by rw [hi1, hl1]; exact hcur
+              simp only [hcur, if_true] at hsrc
+              simp only [hcur1, if_true] at hx1
+              have h1 := seq_at_outLen b1 hcur1
+              rw [hq1, ho1] at h1
+              unfold insertedSeq at h1
+              simp only [Nat.lt_irrefl, if_false, Nat.add_sub_cancel, show ¬ b.outLen + c < b.outLen by omega] at h1
+              rw [seq_at_outLen b hcur, hsrc, hx1] at h1
+              cases h1; rfl
+            · have hcur1 : ¬ b1.idx < b1.len := by rw [hi1, hl1]; exact hcur
+              simp only [hcur, if_false] at hsrc
+              simp only [hcur1, if_false] at hx1
+              have hpos : 0 < b.outLen := by unfold total at hne; omega
+              have h1 : seq b1 (b1.outLen - 1) = b1.outArr[b1.outLen - 1]? := by
+                simp only [seq, show b1.outLen - 1 < b1.outLen by omega, if_true]
+              rw [hq1, hx1, ho1] at h1
+              unfold insertedSeq at h1
+              by_cases hc0 : c = 0
+              · subst hc0
+                simp only [Nat.add_zero, show b.outLen - 1 < b.outLen by omega, if_true] at h1
+                simp only [seq, show b.outLen - 1 < b.outLen by omega, if_true] at h1
+                rw [hsrc] at h1; cases h1; rfl
+              · simp only [show ¬ b.outLen + c - 1 < b.outLen by omega, if_false,
+                  show b.outLen + c - 1 < b.outLen + c by omega, if_true] at h1
+                obtain ⟨g', hg'⟩ := Option.isSome_iff_exists.mp (hgl (b.outLen + c - 1 - b.outLen) (by omega))
+                rw [hg'] at h1
+                simp only [Option.map_some] at h1
+                cases h1; rfl
+          intro q
+          rw [hq2, hx]
+          unfold insertedSeq
+          rw [ho1]
+          by_cases c1 : q < b.outLen
+          · rw [if_pos (by omega), hq1]; unfold insertedSeq; simp only [c1, if_true]
+          · by_cases c2 : q < b.outLen + c
+            · rw [if_pos c2, hq1]; unfold insertedSeq
+              simp only [c1, if_false, c2, if_true, show q < b.outLen + (c + 1) by omega]
+            · by_cases c3 : q = b.outLen + c
+              · subst c3
+                simp only [Nat.lt_irrefl, if_false, if_true, c1, show b.outLen + c < b.outLen + (c + 1) by omega,
+                  Nat.add_sub_cancel_left, hgc, Option.map_some]
+              · rw [if_neg c2, if_neg c3, hq1]; unfold insertedSeq
+                simp only [show ¬ q - 1 < b.outLen by omega, show ¬ q - 1 < b.outLen + c by omega, if_false, c1,
+                  show ¬ q < b.outLen + (c + 1) by omega]
+                congr 1; omega
+
+theorem srcOf_some (b : Buf) (hinv : Inv b) (hne : 0 < total b) : ∃ x, srcOf b = some x := by
+  have hidx := hinv.idx_le
+  unfold srcOf total at *
+  by_cases hcur : b.idx < b.len
+  · simp only [hcur, if_true]
+    exact ⟨b.info[b.idx]'(by have := hinv.len_le; omega), List.getElem?_eq_getElem _⟩
+  · simp only [hcur, if_false]
+    have hpos : b.outLen - 1 < b.outArr.length := by
+      cases hsb : b.sepOut with
+      | true => have := hinv.sep_ok hsb; simp [outArr, hsb]; omega
+      | false => have := hinv.nosep_ok hsb; have := hinv.len_le; simp [outArr, hsb]; omega
+    exact ⟨b.outArr[b.outLen - 1], List.getElem?_eq_getElem hpos⟩
+
+theorem moveTo_unsucc (b : Buf) (i : Nat) (hinv : Inv b) (hs : b.successful = false) :
+    b.moveTo i = .ok (b, false) := by
+  unfold moveTo
+  simp [hinv.have_out, hs, pure, Except.pure]
+
+/-- the logical sequence of `b` with `c` glyphs of the insertion list put in at position `pos`, each a copy of
+    record `x` with its glyph id replaced -/
+def insertedAt (b : Buf) (pos : Nat) (glyphs : Nat → Option Nat) (start c : Nat) (x : Info) (q : Nat) : Option Info :=
+  if q < pos then seq b q
+  else if q < pos + c then (glyphs (start + (q - pos))).map (fun g => { x with gid := g })
+  else seq b (q - c)
+
+open RbModel.Morx in
+/-- **the current-insertion block is a list insertion.** On an in/out buffer (`Inv`), with every glyph of the
+    list present: either an allocation was refused (the buffer ends up marked unsuccessful), or the logical
+    glyph sequence is the old one with the `c` glyphs inserted before the current glyph (`before`, or at the end
+    of the text) or after it, each inheriting the record of the current glyph (of the last output glyph at the
+    end of the text); the output cursor is left at the old position (DONT_ADVANCE) or after the inserted glyphs;
+    nothing is lost or duplicated (`total` grows by `c`). No panic in either case. -/
+theorem insCurrentBody_zipper (glyphs : Nat → Option Nat) (start c : Nat) (before dontAdvance : Bool) (b : Buf)
+    (hinv : Inv b) (hne : 0 < total b)
+    (hgl : ∀ k, k < c → (glyphs (start + k)).isSome = true)
+    (hg : Gen.Buf.ensureGrowOnly = true) (hr : Gen.Buf.moveToRewindReversed = true) :
+    ∃ b' x, srcOf b = some x ∧ InsS.insCurrentBody glyphs start c before dontAdvance b = .ok b' ∧
+      (b'.successful = false ∨
+       (Inv b' ∧ b'.successful = b.successful ∧ total b' = total b + c ∧
+        b'.outLen = (if dontAdvance then b.outLen else b.outLen + c) ∧
+        ∀ q, seq b' q =
+          insertedAt b (if b.idx < b.len ∧ before = false then b.outLen + 1 else b.outLen) glyphs start c x q)) := by
+  obtain ⟨x, hx⟩ := srcOf_some b hinv hne
+  have hidx := hinv.idx_le
+  unfold InsS.insCurrentBody InsS.insBlock
+  by_cases hafter : (decide (b.idx < b.len) && !before) = true
+  · -- insert after the current glyph: copy it, insert, skip it
+    have hcur : b.idx < b.len := by simp at hafter; exact hafter.1
+    have hbef : before = false := by simp at hafter; exact hafter.2
+    have hxi : b.info[b.idx]? = some x := by simpa [srcOf, hcur] using hx
+    obtain ⟨b1, e1, hres1⟩ := copyGlyph_spec b hinv hcur hg
+    -- facts about b1 valid in both outcomes
+    have h1 : Inv b1 ∧ b1.idx = b.idx ∧ b1.len = b.len ∧ b.outLen ≤ b1.outLen ∧ srcOf b1 = some x := by
+      rcases hres1 with h | ⟨hi, ho, hix, hl, _, hq⟩
+      · subst h; exact ⟨inv_unsucc hinv, rfl, rfl, Nat.le_refl _, hx⟩
+      · refine ⟨hi, hix, hl, by omega, ?_⟩
+        have hc1 : b1.idx < b1.len := by rw [hix, hl]; exact hcur
+        have := seq_at_outLen b1 hc1
+        rw [hq, ho] at this
+        simp only [show ¬ b.outLen + 1 < b.outLen by omega, show ¬ b.outLen + 1 = b.outLen by omega, if_false,
+          Nat.add_sub_cancel] at this
+        rw [seq_at_outLen b hcur, hxi] at this
+        simp only [srcOf, hc1, if_true]; exact this.symm
+    obtain ⟨hinv1, hi1, hl1, hmono1, hsrc1⟩ := h1
+    have hne1 : 0 < total b1 := by unfold total at *; rw [hi1, hl1]; omega
+    obtain ⟨b2, e2, hinv2, hi2, hl2, hmono2, hres2⟩ := insertGlyphs_spec glyphs start hg c b1 x hinv1 hne1 hsrc1 hgl
+    have hc2 : b2.idx < b2.len := by rw [hi2, hl2, hi1, hl1]; exact hcur
+    have hskip := skipGlyph_spec b2 hinv2 hc2 hinv2.nosep_ok
+    have hc2' : (decide (b2.idx < b2.len) && !before) = true := by simp [hc2, hbef]
+    simp only [hafter, if_true, e1, bind, Except.bind, e2, Bool.not_true, Bool.false_eq_true, if_false, hc2',
+      pure, Except.pure]
+    by_cases hs3 : b2.skipGlyph.successful = false
+    · rw [moveTo_unsucc _ _ hskip.1 hs3]
+      exact ⟨_, x, hx, rfl, Or.inl hs3⟩
+    · -- every step succeeded
+      have hs2 : b2.successful = true := by simpa [skipGlyph] using hs3
+      rcases hres1 with h | ⟨_, ho1, _, _, hsu1, hq1⟩
+      · exfalso
+        rcases hres2 with h2 | ⟨_, h2, _⟩
+        · rw [h2] at hs2; exact absurd hs2 (by simp)
+        · rw [h2, h] at hs2; exact absurd hs2 (by simp)
+      rcases hres2 with h2 | ⟨ho2, hsu2, hq2⟩
+      · rw [h2] at hs2; exact absurd hs2 (by simp)
+      have htot3 : total b2.skipGlyph = total b + c := by
+        unfold total skipGlyph; simp only; rw [ho2, ho1, hi2, hl2, hi1, hl1]; omega
+      obtain ⟨b4, r, e4, hr4f, hr4t⟩ := moveTo_spec b2.skipGlyph (if dontAdvance = true then b.outLen else b.outLen + c)
+        hskip.1 (by rw [htot3]; unfold total; split <;> omega) hg hr
+      have ho3 : b2.skipGlyph.outLen = b2.outLen := rfl
+      rw [e4]
+      cases r with
+      | false => exact ⟨_, x, hx, rfl, Or.inl (hr4f rfl)⟩
+      | true =>
+        obtain ⟨hinv4, ho4, htot4, hq4, hsu4, _⟩ := hr4t rfl
+        refine ⟨_, x, hx, rfl, Or.inr ⟨hinv4, ?_, by rw [htot4, htot3], ho4, ?_⟩⟩
+        · rw [hsu4]; show b2.successful = b.successful; rw [hsu2, hsu1]
+        · intro q
+          rw [hq4, hskip.2 q]
+          have hpos : (if b.idx < b.len ∧ before = false then b.outLen + 1 else b.outLen) = b.outLen + 1 := by
+            simp [hcur, hbef]
+          rw [hpos]
+          unfold insertedAt
+          by_cases c1 : q < b2.outLen
+          · rw [if_pos c1, hq2]; unfold insertedSeq
+            rw [ho1]
+            by_cases c2 : q < b.outLen + 1
+            · rw [if_pos c2, if_pos c2, hq1]
+              by_cases c3 : q < b.outLen
+              · rw [if_pos c3]
+              · have : q = b.outLen := by omega
+                subst this
+                rw [if_neg c3, if_pos rfl, seq_at_outLen b hcur]
+            · rw [if_neg c2, if_neg c2, if_pos (by omega), if_pos (by omega)]
+          · rw [if_neg c1, hq2]; unfold insertedSeq
+            rw [ho1]
+            rw [if_neg (by omega), if_neg (by omega), if_neg (by omega), if_neg (by omega), hq1,
+              if_neg (by omega), if_neg (by omega)]
+            congr 1; omega
+  · -- insert at the cursor (before the current glyph, or at the end of the text)
+    have hafter' : (decide (b.idx < b.len) && !before) = false := by simpa using hafter
+    obtain ⟨b2, e2, hinv2, hi2, hl2, hmono2, hres2⟩ := insertGlyphs_spec glyphs start hg c b x hinv hne hx hgl
+    have hc2' : (decide (b2.idx < b2.len) && !before) = false := by rw [hi2, hl2]; exact hafter'
+    simp only [hafter', Bool.false_eq_true, if_false, pure, Except.pure, bind, Except.bind, e2, Bool.not_true, hc2']
+    by_cases hs3 : b2.successful = false
+    · rw [moveTo_unsucc _ _ hinv2 hs3]
+      exact ⟨_, x, hx, rfl, Or.inl hs3⟩
+    · rcases hres2 with h2 | ⟨ho2, hsu2, hq2⟩
+      · exact absurd h2 hs3
+      have htot2 : total b2 = total b + c := by unfold total; rw [ho2, hi2, hl2]; omega
+      obtain ⟨b4, r, e4, hr4f, hr4t⟩ := moveTo_spec b2 (if dontAdvance = true then b.outLen else b.outLen + c)
+        hinv2 (by rw [htot2]; unfold total; split <;> omega) hg hr
+      rw [e4]
+      cases r with
+      | false => exact ⟨_, x, hx, rfl, Or.inl (hr4f rfl)⟩
+      | true =>
+        obtain ⟨hinv4, ho4, htot4, hq4, hsu4, _⟩ := hr4t rfl
+        refine ⟨_, x, hx, rfl, Or.inr ⟨hinv4, by rw [hsu4, hsu2], by rw [htot4, htot2], ho4, ?_⟩⟩
+        intro q
+        rw [hq4, hq2]
+        have hpos : (if b.idx < b.len ∧ before = false then b.outLen + 1 else b.outLen) = b.outLen := by
+          have : ¬ (b.idx < b.len ∧ before = false) := by
+            intro h; simp [h.1, h.2] at hafter'
+          simp [this]
+        rw [hpos]; rfl
+end RbModel.Buf
